@@ -25,6 +25,7 @@ CONSTANTS
   Part = 0
   MaxSteps = 400
   KnownRepeatOverMapping = TRUE
+  KnownRawTextEscaped = TRUE
 INVARIANT Terminates
 INVARIANT Escaped
 INVARIANT AttrEscaped
